@@ -27,7 +27,20 @@ def build(shape, name, final_snapshot=True):
     empty_b = P.find("AtomicBucket", "is_empty")
     c0 = sym.Ctx(eng, 0)
     eng.thread_names[0] = "setup"
-    bucket = c0.alloc("AtomicBucket", {(0,): ("ptr", z3.IntVal(0))})
+    tags = {}
+    tail0 = z3.IntVal(0)
+    if shape and shape[0][0] == "full_block":
+        # the initial state is constructed, not executed: one block (write index = block size, every read bit set, the slots holding
+        # values of the setup thread, no successor) is the tail. This is the state BS sequential pushes leave behind.
+        pre = [bv(500 + k) for k in range(BS)]
+        tags[0] = pre
+        init = {(0,): (64, bv(BS)), (1,): (64, bv((1 << BS) - 1)), (3,): ("ptr", z3.IntVal(0))}
+        for k in range(BS):
+            init[(2, ("idx", k))] = (64, pre[k])
+        blk = c0.alloc("Block", init)
+        tail0 = z3.IntVal(blk)
+        shape = shape[1:]
+    bucket = c0.alloc("AtomicBucket", {(0,): ("ptr", tail0)})
     eng.leaves[0] = [sym.Leaf(c0, "done")]
     bp = Ptr(("obj", bucket))
 
@@ -45,7 +58,6 @@ def build(shape, name, final_snapshot=True):
                 alts.append((ln == bv(n), do))
             return Fork(alts)
         return Native("callback", cb)
-    tags = {}
     tids = []
     roles = {}
     for i, th in enumerate(shape, start=1):
@@ -167,6 +179,8 @@ def known_shapes(eng, sc, tids):
 
 def scenario(e3, shape, name, known, with_race=True):
     P, eng, sc, tags, tids, roles, fin = build(shape, name)
+    prefill = BS if shape and shape[0][0] == "full_block" else 0
+    shape = shape[1:] if prefill else shape
     cleared = payloads(eng, "cleared")
     remaining = payloads(eng, "remaining")
     snapshot = payloads(eng, "snapshot")
@@ -242,7 +256,7 @@ def scenario(e3, shape, name, known, with_race=True):
         props.append(("K4_handover_publishes_before_linking", "known finding K4: values unreachable because a fresh block is published by CAS before its `next` link is stored", z3.And(lost, k4), None))
         kn["K4_handover_publishes_before_linking"] = "C05:K4-handover-publish-before-link"
     bounds = f"threads {shape} + final quiescent snapshot; block size {BS}; every interleaving of atomic steps; {sc.stats}"
-    e3.standard(sc, eng, name, bounds, props, timeout=600, known=kn, replayer=_e3.native_replayer("C05", "c05", roles, {}))
+    e3.standard(sc, eng, name, bounds, props, timeout=600, known=kn, replayer=_e3.native_replayer("C05", "c05", roles, {"prefill": z3.IntVal(prefill)}))
 
 
 SCEN_QUICK = [
@@ -251,6 +265,8 @@ SCEN_QUICK = [
     ([("push", 2), ("clear",)], "c05_push2_clear", ["K3"], False),
     ([("push", 1), ("push", 1), ("data",)], "c05_push_push_data", [], False),
     ([("push", 3), ("is_empty",)], "c05_push3_is_empty", [], False),
+    # a full tail block (constructed), then the hand-over push racing a clear: the retry paths of push after a failed publishing CAS
+    ([("full_block",), ("push", 1), ("clear",)], "c05_full_block_push_clear", ["K3"], False),
 ]
 SCEN_THOROUGH = [
     ([("push", 1), ("push", 1)], "c05_push_push", []),
